@@ -114,9 +114,11 @@ func (vc *VC) runPass() {
 				h := st.heap[n].S
 				vc.emit(fmt.Sprintf("(assert (forall ((r Int)) (! (=> (> r alloc$base) (not (select %s r))) :pattern ((select %s r)))))", h, h))
 			}
-			if true {
-				continue // superseded by the read-time assumption assumeAllocated (no quantifiers)
+			if noRefAxioms {
+				continue
 			}
+			// (reads outside quantifiers also get the ground fact from assumeAllocated; these
+			// axioms cover reads under quantifiers in invariants)
 			if vc.universe[n] == arrSort(SInt, SSlc) {
 				// slices stored in objects on entry were allocated before the call
 				h := st.heap[n].S
@@ -223,7 +225,7 @@ func (vc *VC) runPass() {
 	c := vc.contract
 	star := false
 	for _, a := range c.Assigns {
-		if a == "*" {
+		if a == "*" || a == "**" {
 			star = true
 		}
 	}
